@@ -62,7 +62,9 @@ __CPROVER_assigns()
     double lo = nk - rk, hi = nk + rk;
     if (lo < -1.0) lo = -1.0;
     if (hi > 1.0) hi = 1.0;
-    __CPROVER_assert(np - rp <= lo && hi <= np + rp, "L6b the support interval of a kid, clipped to the domain, lies inside the parent's interval");
+    /* dyadic rules: exact (@TOL@ is 0).  Ternary rule (pwc): nodes and radii are rounded, the two intervals share an end point in exact arithmetic and may differ by an ulp
+     * there; the tolerance 2^-48 is far below the distance 3^-20 that separates the value support of any descendant (levels whose indices fit an int) from the end of the pruning interval */
+    __CPROVER_assert(np - rp - @TOL@ <= lo && hi <= np + rp + @TOL@, "L6b the support interval of a kid, clipped to the domain, lies inside the parent's interval");
   }
 }
 //@ harness h_lemma_nested_@R@
